@@ -288,14 +288,6 @@ def signable (S : List Block) (roots : List (Nat × ρ)) (beacon : Nat) : List (
 def signableLegacy (roots : List (Nat × ρ)) (beacon : Nat) : List (Nat × ρ) :=
   roots.filter (fun r => r.1 * LEN < beacon)
 
-theorem filter_start_lt (S : List Block) (K j : Nat) :
-    (cached R S K).filter (fun r => r.1 * LEN < j * LEN - 1 + 1 - 1) = (cached R S K).filter (fun r => r.1 < j) := by
-  apply List.filter_congr
-  intro r _
-  simp only [decide_eq_decide]
-  unfold LEN
-  omega
-
 /-- **aligned beacons** (`beacon + 1` a multiple of 15 — every `CardanoTransactions` beacon): what the
 builders read is the cache of the ranges below the beacon, whatever further ranges the node has
 already computed (`K` beyond `(beacon+1)/15`) -/
